@@ -165,6 +165,17 @@ CHECKS['C11'] = (
  'Trusted base: g++ -O0 -std=c++17 -frounding-math -ffp-contract=off and the host IEEE arithmetic; integer programs keep values small '
  '(signed overflow is undefined in C++); rejections (CppCompileError) counted, not judged; quick uses a fixed core plus a seed-rotated '
  'slice of the full product.', '§5 C11')
+CHECKS['C12'] = (
+ 'bounded exhaustive enumeration of programs in the FPCore-expressible subset (all block trees up to a node bound x context '
+ 'assignments x return forms, plus templates) x argument vectors; compiled cores evaluated by the reference FPCore evaluator '
+ '(titanfp) and re-read functions compared with the interpreter',
+ 'Every block tree up to N nodes and depth 3 over nine node kinds (update, with-block, if/else, one-armed if, counted and plain while, '
+ 'for over a list, three range forms) crossed with every assignment of binary16/32/64 x four modes and integer contexts to the with '
+ 'nodes, the outer context and the return form, plus 12 tuple/tensor/reduction templates with every contiguous statement range '
+ 'wrapped in an inner with; each program is compiled, the core evaluated by titanfp, re-read with from_fpcore, and all three compared '
+ 'on 6-14 argument vectors and list sizes 0-3; disagreements with titanfp are arbitrated by an independent evaluator of FPCore text.',
+ 'titanfp is the trusted reference (its known overflow quirk under directed modes is arbitrated by the text evaluator and not '
+ 'reported); empty tensors are inconclusive for the compile direction; zero sign not compared.', '§5 C12')
 PENDING = {}
 
 def main():
